@@ -327,8 +327,17 @@ class Sim(object):
         raise SimKilled()
 
     def yield_(self, what=None):
-        '''optional pre-emption point'''
+        '''optional pre-emption point; with `stall_prob` the thread is
+        descheduled for a short virtual time (slow / pre-empted thread) so
+        that timers of other threads fire inside its critical sections'''
         if not self.in_sim_thread():
+            return
+        if self.stall_prob and self.current.group != 'driver' and \
+                self.ch.coin(self.stall_prob):
+            self.fault('stall')
+            dt = self.ch.uniform(0.0, self.stall_max, steps=12)
+            self.park(BLOCKED, pred=None, deadline=self.now + dt,
+                      what='stall')
             return
         if self.yield_prob >= 1.0 or self.ch.coin(self.yield_prob):
             self.park(READY, what=what)
@@ -456,6 +465,8 @@ class Sim(object):
     ctx_hooks = ()
 
     SPIN_LIMIT = 400
+    stall_prob = 0.0
+    stall_max  = 0.06
     _spin_now  = None
     _spin_ev   = -1
     _spin_cnt  = 0
